@@ -1,6 +1,6 @@
 //! C01 / C02: samplers follow their documented law (DESIGN §5).
 use crate::envelope::{classes, grid, random_cell};
-use crate::families::{build, Cell, Fam, Ft, CONTINUOUS, DISCRETE};
+use crate::families::{build, Cell, Fam, Ft, CONTINUOUS, CTOR_VARIANTS, DISCRETE};
 use crate::refdist::reflaw;
 use crate::report::{Ctx, Violation};
 use crate::rng::{hseed, BaseRng};
@@ -97,7 +97,7 @@ pub fn run_cell(ctx: &Ctx, plan: &LawPlan, min_n: u64) -> Option<LawOutcome> {
 pub fn plans_c01(ctx: &Ctx) -> Vec<LawPlan> {
     let (n_grid, n_rand, k_rand) = if ctx.thorough() { (100_000_000, 10_000_000, 200) } else { (4_000_000, 4_000_000, 24) };
     let mut plans = vec![];
-    for &fam in CONTINUOUS.iter() {
+    for &fam in CONTINUOUS.iter().chain(CTOR_VARIANTS.iter()) {
         for ft in [Ft::F32, Ft::F64] {
             for cell in grid(fam, ft) {
                 plans.push(LawPlan { cell, n: n_grid, origin: "grid" });
